@@ -1358,9 +1358,9 @@ func runCycles(e *common.Env) {
 		var obs string
 		select {
 		case obs = <-done:
-		case <-time.After(10 * time.Second):
+		case <-time.After(40 * time.Second):
 			obs = "hang"
-			failCapped(e, "reader-does-not-terminate-on-prev-cycle", "NewReader does not return within 10 s on a file whose /Prev chain is cyclic",
+			failCapped(e, "reader-does-not-terminate-on-prev-cycle", "NewReader does not return within 40 s on a file whose /Prev chain is cyclic",
 				map[string]any{"id": c.id, "file": string(c.file)})
 		}
 		e.Line("impl.obs", "%s %s", c.id, obs)
